@@ -205,8 +205,6 @@ RestoreOK ==
      ELSE IF Ev.hidxok = FALSE THEN Reject("C10", "restore: history index / period not restored")
      ELSE IF T.expectpolicy /\ Ev.ptag # chosen
        THEN Reject("C10", "restore: stored policy not restored")
-     ELSE IF \E x \in savedp : x[1] = chosen /\ x[2] # Ev.pdig
-       THEN Reject("C10", "restore: the policy field differs from the one handed to save() at that step")
      ELSE IF Ev.cfgeq = FALSE THEN Reject("C10", "restore: rebuilt configuration differs from the original")
      ELSE IF Ev.dtypeok = FALSE THEN Reject("C10", "restore: restored values have a different dtype")
      ELSE IF Ev.route = "restore" /\ (Ev.nfreq # Ev.wantfreq \/ Ev.nkeep # Ev.wantkeep \/ Ev.nasync # Ev.wantasync \/ Ev.ndir # Ev.wantdir)
@@ -218,6 +216,9 @@ RestoreOK ==
           /\ lastCall' = 0 /\ prevCall' = 0 /\ expectSave' = FALSE
           /\ durable' = IF Ev.ndir = 2 THEN 0 ELSE durable
           /\ rfrom' = chosen
+          \* reported without stopping the trace (the rest is still judged): C10's check turns it into a verdict
+          /\ (\E x \in savedp : x[1] = chosen /\ x[2] # Ev.pdig) =>
+                PrintT(<<"DRIFT", tid, "C10 restore: the policy field differs from the one handed to save() at that step">>)
           /\ Step
           /\ UNCHANGED <<onDisk, crashed, savedp>>
 
